@@ -34,6 +34,7 @@ type Profile struct {
 	GovKinds    []string // which modules' parameters governance changes (default: all four)
 	PCheck      int      // percent of txs that are submitted to CheckTx only (mempool admission)
 	SlotRules   []int    // override of the storage-purchase slot rules
+	PGranter    int      // percent of txs that name a fee granter (one who granted the payer an allowance, if any)
 	SteerExport bool     // C15: the block before the export point raises an order and funds a stream
 	PBulk       int      // per-mille of txs that are repeated 100-260 times in a row (bulk populations)
 	LockedActors bool    // registrations are preferably made by accounts that hold locked eFUND
@@ -492,6 +493,12 @@ func GenScenario(t *rapid.T, p *Profile) *Scenario {
 			}
 			if p.PBulk > 0 && !tx.Check && uni(t, 1000, "bulk") >= 1000-p.PBulk {
 				tx.Repeat = pick(t, []int{100, 101, 101, 130, 260}, "bulkN")
+			}
+			if pct(t, p.PGranter, "granter") {
+				tx.Granter = -1
+				if oneIn(t, 6, "anyGranter") {
+					tx.Granter = 1 + uniRange(t, 0, nAcc-1, "granterIdx")
+				}
 			}
 			if pct(t, p.PFault, "fault") {
 				tx.Fault = uniRange(t, 1, 4, "faultKind")
